@@ -87,3 +87,36 @@ Definition run_uspace (l : list N) : list N :=
       encode_status (u_st o) ++ [u_ret o; N.of_nat (length (u_rest o))] ++ encode_utrace (u_trace o)
   | _ => [9]
   end.
+
+(* ------------------------------------------------------------------ *)
+(* backup names (C09)                                                   *)
+(* ------------------------------------------------------------------ *)
+From XcpModel Require Import Backup.
+
+Definition enc_opt (o : option N) : list N := match o with Some n => [1; n] | None => [0] end.
+
+(* [nb; base bytes (nb); candidate bytes] *)
+Definition run_isnum (l : list N) : list N :=
+  match l with
+  | nb :: r => let '(b, c) := take_drop (N.to_nat nb) r in enc_opt (is_num_backup b c)
+  | [] => [9]
+  end.
+
+(* directory scan: [nb; base; n1; name1; n2; name2; ...] -> has, next (0 = overflow), backup name *)
+Fixpoint decode_names (fuel : nat) (l : list N) : list name :=
+  match fuel, l with
+  | S f, n :: r => let '(a, b) := take_drop (N.to_nat n) r in a :: decode_names f b
+  | _, _ => []
+  end.
+
+Definition run_nextnum (l : list N) : list N :=
+  match l with
+  | nb :: r =>
+      let '(b, rest) := take_drop (N.to_nat nb) r in
+      let entries := decode_names (length rest) rest in
+      match next_backup_num b entries with
+      | Some n => b2n (has_backup b entries) :: n :: backup_name b n
+      | None => [b2n (has_backup b entries); 0]
+      end
+  | [] => [9]
+  end.
